@@ -35,6 +35,9 @@ type histDesc struct {
 	RvMfg  int           `json:"rv_mfg"` // rendezvous-info variant set by the manufacturer
 	RvOwn  int           `json:"rv_own"` // variant set by owners as replacement
 	Cut    cut           `json:"cut"`
+	// NoChain: the owners' key stores hold their keys WITHOUT certificate chains (for an X5CHAIN
+	// voucher the owner then has to fall back to X509 consistently in every TO2 message and at Done)
+	NoChain bool `json:"nochain,omitempty"`
 }
 
 func rvVariant(n int) [][]protocol.RvInstruction {
@@ -84,7 +87,7 @@ func evalHist(d histDesc) ev.Result {
 	ctx, cancel := context.WithTimeout(context.Background(), 60*time.Second)
 	defer cancel()
 	cfg := d.Cfg
-	tag := fmt.Sprintf("%s/%s/%s/%s reuse=%v rounds=%d rv=%d/%d cut=%+v", cfg.Key, cfg.Enc, cfg.Kex, cfg.Cipher, d.Reuse, d.Rounds, d.RvMfg, d.RvOwn, d.Cut)
+	tag := fmt.Sprintf("%s/%s/%s/%s reuse=%v rounds=%d rv=%d/%d nochain=%v cut=%+v", cfg.Key, cfg.Enc, cfg.Kex, cfg.Cipher, d.Reuse, d.Rounds, d.RvMfg, d.RvOwn, d.NoChain, d.Cut)
 	mfg := deploy.NewMemService("mfg", deploy.KeyMfg)
 	mfg.RvInfo = rvVariant(d.RvMfg)
 	owners := []*deploy.Service{deploy.NewMemService("owner1", deploy.KeyOwner1), deploy.NewMemService("owner2", deploy.KeyOwner2), deploy.NewMemService("owner3", deploy.KeyStranger)}
@@ -92,6 +95,7 @@ func evalHist(d histDesc) ev.Result {
 	for i, o := range owners {
 		o.Reuse = d.Reuse
 		o.RvInfo = rvVariant(d.RvOwn + i)
+		o.Mem.NoOwnerChain = d.NoChain
 	}
 	dev := deploy.NewDevice(cfg, deploy.KeyDevice)
 	dev.Reuse = d.Reuse
@@ -493,7 +497,7 @@ func TestC03(t *testing.T) {
 		}
 	}, evalStoreFault)
 
-	r.SetRule("histories", "rapid: configuration (all key types/encodings × valid key exchange × cipher) × reuse × 1..3 rounds of (extend/resell to the next of three owners, TO2) × rendezvous-info variants set by manufacturer and owners (empty, one directive, two directives, bypass) × optionally one cut; same oracle. Non-trivial: a fired cut, or ≥2 replace rounds; distinct by descriptor.")
+	r.SetRule("histories", "rapid: configuration (all key types/encodings × valid key exchange × cipher) × reuse × 1..3 rounds of (extend/resell to the next of three owners, TO2) × rendezvous-info variants set by manufacturer and owners (empty, one directive, two directives, bypass) × owner key stores with or without certificate chains × optionally one cut; same oracle. Non-trivial: a fired cut, or ≥2 replace rounds; distinct by descriptor.")
 	ev.Rapid(r, "histories", ev.N{Quick: 1500, Thorough: 60000}, func(t *rapid.T) histDesc {
 		key := rapid.SampledFrom(deploy.KeyNames).Draw(t, "key")
 		encs := deploy.EncNames
@@ -506,6 +510,7 @@ func TestC03(t *testing.T) {
 		}
 		d := histDesc{Cfg: deploy.Config{Key: key, Enc: rapid.SampledFrom(encs).Draw(t, "enc"), Kex: kx, Cipher: rapid.SampledFrom(deploy.CipherNames).Draw(t, "cipher")},
 			Reuse: rapid.IntRange(0, 3).Draw(t, "reuse") == 0, Rounds: rapid.IntRange(1, 3).Draw(t, "rounds"), RvMfg: rapid.IntRange(0, 7).Draw(t, "rvmfg"), RvOwn: rapid.IntRange(0, 7).Draw(t, "rvown")}
+		d.NoChain = rapid.IntRange(0, 3).Draw(t, "nochain") == 0
 		if rapid.Bool().Draw(t, "cut") {
 			d.Cut = cut{Proto: rapid.SampledFrom([]string{"di", "to2", "to2", "to2"}).Draw(t, "proto"), Round: rapid.IntRange(1, d.Rounds).Draw(t, "round"), Ordinal: rapid.IntRange(0, 8).Draw(t, "ord"),
 				Mode: rapid.SampledFrom([]string{"req-lost", "resp-lost", "error255"}).Draw(t, "mode")}
